@@ -115,7 +115,7 @@ PROPERTIES = {
         ],
     },
     "C14": {
-        "modules": ["contracts.core_models", "contracts.c14_fifo", "contracts.c14_views"],
+        "modules": ["contracts.core_models", "contracts.c14_fifo", "contracts.c14_views", "contracts.c14_indirect"],
         "level": "proof",
         "explanation": "step contracts of the REAL methods of std.Fifo and std.Stack over a ghost model of clocked signals, for SYMBOLIC capacity N (power of two or not), index values, memory content and data. Fifo: _next_index(i) == (i+1) mod N; the concurrent block of __init__ drives empty <=> size == 0 and full <=> size == N-1 (capacity N-1); against the queue view size = (wr-rd) mod N, elem(k) = mem[(rd+k) mod N]: push appends the element and keeps every other position, pop returns the oldest element and shifts the rest, push and pop in the same clock (either order) do both -- the inductive step of 'delivers elements in exactly the order they were pushed, without loss or duplication'; locally, for shared and for separate (synchronised) index signals, push writes at and advances the producer's own index, pop / front read at and pop advances the consumer's own index. Stack (both modes): push / pop / front / reset / empty / full / size against the list view, drop-old mode discarding exactly the oldest element on a push to a full stack.",
         "assumptions": COMMON_ASSUME + [
@@ -143,7 +143,7 @@ PROPERTIES = {
             "the master side (read_word / write_word), std.axi.axi4_light.base_entity / addr_map_entity wiring and the register classes beyond decode and mask handling (fields, notifications, arrays, Memory) are not under contract",
             "is_pow_two / int_log_2 are uninterpreted in the decode proof, constrained only for the object's size",
         ],
-        "extra": ["contracts.c20_extra.mask_dataflow", "contracts.c20_extra.field_kinds", "contracts.c20_extra.mask_sweep", "contracts.c20_regsweep.register_sweep"],
+        "extra": ["contracts.c20_extra.mask_dataflow", "contracts.c20_extra.field_kinds", "contracts.c20_extra.mask_sweep", "contracts.c20_regsweep.register_sweep", "contracts.c20_layout.field_extract_sweep", "contracts.c20_layout.layout_sweep"],
         "canaries": [
             {"name": "decode-alignment", "contract": "cohdl.std.reg.reg:RegisterObject._contains_addr_", "case": "pow2-unaligned", "file": "cohdl/std/reg/reg.py",
              "old": "        if std.is_pow_two(unit_count) and global_offset % unit_count == 0:", "new": "        if std.is_pow_two(unit_count):"},
